@@ -196,8 +196,71 @@ pub fn run(tier: Tier) -> i32 {
             ops.insert(2 * k + 1, Op::HsRead { side: w.peer(), msg: Msg::Last(w), cap: Cap::Exact(0) });
             ops.insert(2 * k, Op::HsWrite { side: w, plen: 6, cap: Cap::NeedPlus(-1) });
             eval(&cfg, &ops);
+            // ... and the same in the transport phase (both modes): a write into a buffer one byte short, a read into
+            // a payload buffer one byte short, then the step done correctly
+            if *k == 0 {
+                for mode in [Mode::TT, Mode::SS] {
+                    let dirs: Vec<Side> = if p.pattern.is_oneway() { vec![Side::I, Side::I, Side::I] } else { vec![Side::I, Side::R, Side::R, Side::I] };
+                    let base = sess::full_session_ops(p, &[6, 6, 6, 6], mode, &dirs, &[3, 0, 20, 5]);
+                    let mut ops = vec![];
+                    for op in base {
+                        match &op {
+                            Op::TWrite { side, plen, .. } => ops.push(Op::TWrite { side: *side, plen: *plen, cap: Cap::NeedPlus(-1) }),
+                            Op::SWrite { side, nonce, plen, .. } => ops.push(Op::SWrite { side: *side, nonce: *nonce, plen: *plen, cap: Cap::NeedPlus(-1) }),
+                            Op::TRead { side, msg, .. } => ops.push(Op::TRead { side: *side, msg: msg.clone(), cap: Cap::NeedPlus(-1) }),
+                            Op::SRead { side, nonce, msg, .. } => ops.push(Op::SRead { side: *side, nonce: *nonce, msg: msg.clone(), cap: Cap::NeedPlus(-1) }),
+                            _ => {},
+                        }
+                        ops.push(op);
+                    }
+                    eval(&cfg, &ops);
+                }
+            }
         }
     });
+    // 3b''. the caller's buffers may have any amount of slack: every write into a buffer of exactly the message
+    // size plus k, every read into a payload buffer of exactly the payload size plus k (k below, at and above
+    // the tag length), for every cipher x backend, handshake payloads and both transport modes
+    {
+        use crate::exec::{Cap, Msg};
+        let combos = super::common::cipher_backends();
+        let slack = [0isize, 1, 2, 7, 8, 15, 16, 17, 31, 100];
+        let mut jobs: Vec<(refnoise::CipherAlg, crate::seam::Backend, &str, Mode, isize, isize)> = vec![];
+        for (c, b) in &combos {
+            for (pat, m) in [("XX", Mode::TT), ("IK", Mode::SS), ("N", Mode::TT), ("NNpsk0", Mode::SS)] {
+                for kw in slack {
+                    for kr in slack {
+                        jobs.push((*c, *b, pat, m, kw, kr));
+                    }
+                }
+            }
+        }
+        jobs.par_iter().for_each(|(c, b, pat, mode, kw, kr)| {
+            let (base, psks): (&str, Vec<u8>) = if let Some(x) = pat.strip_suffix("psk0") { (x, vec![0]) } else { (pat, vec![]) };
+            let p = super::common::proto(base, &psks, DhAlg::X25519, *c, HashAlg::Sha256);
+            if let Some(mut cfg) = cfg_for(&p, 8, Eph2::Scripted) {
+                cfg.backend = [*b, *b];
+                let dirs: Vec<Side> = if p.pattern.is_oneway() { vec![Side::I, Side::I] } else { vec![Side::I, Side::R, Side::I] };
+                let ops: Vec<Op> = sess::full_session_ops(&p, &[9, 0, 33, 1], *mode, &dirs, &[40, 0, 7])
+                    .into_iter()
+                    .map(|op| match op {
+                        // (snow asks for 16 spare bytes in handshake writes even when the payload goes out in clear; the
+                        // properties neither require nor forbid success with less, so the slack starts there)
+                        Op::HsWrite { side, plen, .. } => Op::HsWrite { side, plen, cap: Cap::NeedPlus(16 + *kw) },
+                        Op::HsRead { side, msg, .. } => Op::HsRead { side, msg, cap: Cap::NeedPlus(*kr) },
+                        Op::TWrite { side, plen, .. } => Op::TWrite { side, plen, cap: Cap::NeedPlus(*kw) },
+                        Op::TRead { side, msg, .. } => Op::TRead { side, msg, cap: Cap::NeedPlus(*kr) },
+                        Op::SWrite { side, nonce, plen, .. } => Op::SWrite { side, nonce, plen, cap: Cap::NeedPlus(*kw) },
+                        Op::SRead { side, nonce, msg, .. } => Op::SRead { side, nonce, msg, cap: Cap::NeedPlus(*kr) },
+                        o => o,
+                    })
+                    .collect();
+                let _: Option<Msg> = None;
+                eval(&cfg, &ops);
+            }
+        });
+        ctx.count("buffer_slack_cases", jobs.len() as u64);
+    }
     ctx.count("local_retry_cases", rjobs.len() as u64);
     // 3b'. the PSKs the parties end up with are what counts, however they got there: both sides are built with
     // DIFFERENT provisional PSKs and then install the agreed ones through HandshakeState::set_psk (replacing
@@ -303,7 +366,7 @@ pub fn run(tier: Tier) -> i32 {
 pub fn replay(case: &serde_json::Value) -> Result<(), String> {
     let (cfg, ops) = sess::case_from_json(case).ok_or("bad case")?;
     match check(&cfg, &ops).first() {
-        Some((s, d)) => Err(format!("{s}: {d}")),
+        Some((s, d)) => Err(format!("{s}: {d}\n{}", sess::describe_steps(&sess::run(&cfg, &ops)).join("\n"))),
         None => Ok(()),
     }
 }
